@@ -48,7 +48,7 @@ pub fn expected_table(st: &St) -> Vec<(u64, u32, Option<i32>)> {
         }
         let Some(k) = s.reg_key else { continue };
         match &s.k {
-            K::Ping(_) | K::Channel(_) => out.push((k as u64, mask_of(1, 0, true), None)),
+            K::Ping(_) | K::Channel(_) | K::Exec(_) | K::Stream(_) => out.push((k as u64, mask_of(1, 0, true), None)),
             K::Life(l) => {
                 if l.has_ping {
                     out.push((k as u64 + 1, mask_of(1, 0, true), None));
@@ -69,7 +69,9 @@ pub fn check_table(sim: &Sim) {
     if !st.loop_alive || st.srcs.values().any(|s| s.indeterminate) || st.adapters_indeterminate > 0 {
         return;
     }
-    let actual: Vec<os::EpollEntry> = os::epoll_table(epfd).into_iter().filter(|e| e.data != u64::MAX).collect();
+    // live adapters: presence is checked by fd (their interest mask changes with every await)
+    let live_ad: Vec<u64> = st.adapters.values().filter(|a| matches!(a.state, crate::adapter::AdState::Held | crate::adapter::AdState::InTask(_))).filter_map(|a| a.key).collect();
+    let actual: Vec<os::EpollEntry> = os::epoll_table(epfd).into_iter().filter(|e| e.data != u64::MAX && !live_ad.contains(&e.data)).collect();
     let expected = expected_table(&st);
     drop(st);
     let mut a: Vec<(u64, u32)> = actual.iter().map(|e| (e.data, e.events)).collect();
